@@ -65,7 +65,7 @@ struct RenameSet {
 RenameSet methodRenameDictionary[] = {
   { "operator =="   , "__eq__",                 0 },
   { "operator !="   , "__ne__",                 0 },
-  { "operator << "  , "__lshift__",             0 },
+  { "operator <<"   , "__lshift__",             0 },
   { "operator >>"   , "__rshift__",             0 },
   { "operator <"    , "__lt__",                 0 },
   { "operator >"    , "__gt__",                 0 },
